@@ -922,6 +922,8 @@ class Executor:
             return self.cast(st, a, rv[2], rv[3])
         if k == 'discriminant':
             e = self.read(st, fr, rv[1])
+            while isinstance(e, Ptr):
+                e = e.load(st)      # a reference that was passed with one level of indirection too many (map-slot pointers)
             ty = parse_type(self.dest_type(fr, dest) or 'isize')
             w, sg = (ty.n, ty.mut) if ty.kind == 'int' else (64, True)
             if isinstance(e, Struct) and '__state' in e.fields:
